@@ -781,6 +781,10 @@ func (n *BitcoinNode) handleBlock(ctx context.Context, header *wire.MessageHeade
 	blockHandlerThread := threads.NewUninterruptableThread("Block Handler",
 		func(ctx context.Context) error {
 			err := blockHandler(ctx, blockHeader, txCount, txChannel)
+			for range txChannel {
+				// The handler can return before the end of the block (cancelled before its first
+				// check). Keep receiving so the sender below never blocks on a full channel.
+			}
 			if err == nil {
 				n.peers.UpdateScore(ctx, n.Address(), 1)
 			}
